@@ -1,1 +1,664 @@
-fn main() { eprintln!("not built yet"); std::process::exit(2); }
+//! vh-lsp: C20 in-process part. Compiles the language server's *real* position code from the working tree
+//! (`dora-language-server` is a bin-only crate, so the file is included by path) and checks it against an
+//! independent re-implementation of the LSP line / UTF-16 column arithmetic.
+//!
+//!   pos   -> every char-boundary offset round-trips, offset->position equals the reference, a grid of
+//!            (line, column) positions (also out of range / inside surrogate pairs) is clamped into the document
+//!            on a char boundary, inside the addressed line, monotone; no panic.
+//!   dump  -> writes generated document texts to files for the stdio driver of the real server (vlib/lspdrive.py).
+use std::cell::Cell;
+
+use lsp_types::{Position, Range};
+use vhc::textgen::{Case, Corpus, gen_family};
+use vhc::{Args, Reporter, Rng, catch, msg_class};
+
+#[allow(dead_code)]
+#[path = "/repo/dora-language-server/src/position.rs"]
+mod position;
+
+use position::{range_to_span, span_to_range, utf8_offset_to_utf16_position, utf16_position_to_utf8_offset};
+
+fn main() {
+    let args = Args::parse();
+    vhc::install_panic_hook();
+    match args.mode.as_str() {
+        "pos" => run_pos(&args),
+        "dump" => run_dump(&args),
+        m => panic!("unknown mode {}", m),
+    }
+}
+
+// ------------------------------------------------------------------------------------------------
+// Input families
+
+const HOSTILE: &[&str] = &[
+    "",
+    "\r",
+    "\n",
+    "\r\n",
+    "\n\r",
+    "\r\r",
+    "\r\r\n",
+    "\r\n\r",
+    "\r\n\r\n",
+    "\n\n",
+    "a",
+    "a\r",
+    "a\n",
+    "a\r\n",
+    "a\r\nb",
+    "a\rb",
+    "a\nb",
+    "😀",
+    "😀\r\n",
+    "😀\r",
+    "😀\n😀",
+    "\r\n😀",
+    "a😀\r\n😀b\r😀\n",
+    "😀😀😀",
+    "𝒳𝒳\r\n𝒳",
+    "\u{10FFFF}\r\n\u{10000}",
+    "\u{FFFF}\u{10000}\u{FFFF}",
+    "\u{feff}",
+    "\u{feff}\r\n",
+    "\u{feff}fn main() {}\r\n",
+    "\u{feff}😀\r\n\u{feff}",
+    "fn main() {}",
+    "fn main() {}\n",
+    "fn main() {}\r\n",
+    "fn main() {}\r",
+    "fn f😀() {}\r\nenum E { A { x: Int32 } }",
+    "e\u{0301}\r\ne\u{0301}",
+    "\u{2028}\u{2029}\u{85}\u{0b}\u{0c}",
+    "a\u{2028}b\r\nc\u{85}d",
+    "\0\r\n\0",
+    "ä€中😀\rä€中😀\nä€中😀\r\nä€中😀",
+    "\r\n\r\n\r\n",
+    "\r\r\r",
+    "\n\r\n\r",
+    "x\r\n",
+    "\t😀\t\r\n\t",
+];
+
+const PIECES: &[&str] = &[
+    "a", "b", " ", "\t", "\r", "\n", "\r\n", "\r", "\n", "\r\n", "😀", "𝒳", "\u{10FFFF}", "\u{10000}", "€", "ä", "中",
+    "\u{feff}", "\u{0301}", "\u{2028}", "\u{85}", "\0", "\u{FFFF}", "\u{D7FF}", "\u{E000}", "fn", "{", "}", "\"", "//",
+];
+
+fn poshostile(rng: &mut Rng) -> String {
+    let big = rng.chance(1, 6);
+    let n = rng.below(if big { 300 } else { 40 });
+    let mut s = String::new();
+    for _ in 0..n {
+        s.push_str(rng.pick_str(PIECES));
+    }
+    s
+}
+
+fn longline(rng: &mut Rng) -> String {
+    let n = 5_000 + rng.below(35_000);
+    let mut s = String::with_capacity(n * 2);
+    let brk = if rng.chance(1, 2) { 0 } else { 1 + rng.below(4) };
+    for i in 0..n {
+        match rng.below(40) {
+            0 => s.push('😀'),
+            1 => s.push('€'),
+            2 => s.push('ä'),
+            3 => s.push('\u{10FFFF}'),
+            _ => s.push((b'a' + (i % 26) as u8) as char),
+        }
+        if brk > 0 && rng.below(n / brk + 1) == 0 {
+            s.push_str(rng.pick_str(&["\n", "\r\n", "\r"]));
+        }
+    }
+    match rng.below(4) {
+        0 => s.push('\n'),
+        1 => s.push_str("\r\n"),
+        2 => s.push('\r'),
+        _ => {}
+    }
+    s
+}
+
+const IDENTS: &[&str] = &["Foo", "bar", "x", "Bäz", "名前", "q😀", "𝒳y", "e\u{0301}", "A1", "ß", "Z_z", "k\u{200b}"];
+const TYPES: &[&str] = &["Int32", "Int64", "String", "Bool", "Foo", "Array[Int32]", "(Int32, Bool)", "Option[名前]"];
+
+/// Declaration-rich documents: every element kind the symbol extraction knows, with multi-byte / astral
+/// identifiers, comments that shift columns, and mixed line endings.
+fn symgen(rng: &mut Rng) -> String {
+    fn nl(rng: &mut Rng, style: usize) -> &'static str {
+        match style {
+            0 => "\n",
+            1 => "\r\n",
+            2 => "\r",
+            _ => *rng.pick(&["\n", "\r\n", "\r", " ", "\n\n", "\r\n\r\n"]),
+        }
+    }
+    fn ident(rng: &mut Rng) -> String {
+        rng.pick_str(IDENTS).to_string()
+    }
+    fn pad(rng: &mut Rng) -> &'static str {
+        *rng.pick(&["", "", " ", "/* 😀 */ ", "/* ä€ */", "\t", "  "])
+    }
+    fn fields(rng: &mut Rng, style: usize, named: bool) -> String {
+        let n = rng.below(4);
+        let mut s = String::new();
+        for i in 0..n {
+            if i > 0 {
+                s.push_str(",");
+                s.push_str(nl(rng, style));
+            }
+            s.push_str(pad(rng));
+            if named {
+                s.push_str(&format!("{}{}: {}", if rng.chance(1, 4) { "pub " } else { "" }, ident(rng), rng.pick_str(TYPES)));
+            } else {
+                s.push_str(rng.pick_str(TYPES));
+            }
+        }
+        if n > 0 && rng.chance(1, 3) {
+            s.push(',');
+        }
+        s
+    }
+    fn item(rng: &mut Rng, style: usize, depth: usize, out: &mut String) {
+        out.push_str(pad(rng));
+        if rng.chance(1, 6) {
+            out.push_str("// cömment 😀");
+            out.push_str(if style == 2 { "\r" } else if style == 1 { "\r\n" } else { "\n" });
+        }
+        if rng.chance(1, 5) {
+            out.push_str("pub ");
+        }
+        match rng.below(13) {
+            0 => out.push_str(&format!("fn {}({}) {{{}}}", ident(rng), fields(rng, style, true), nl(rng, style))),
+            1 => out.push_str(&format!("struct {} {{{}{}{}}}", ident(rng), nl(rng, style), fields(rng, style, true), nl(rng, style))),
+            2 => out.push_str(&format!("class {} {{{}{}{}}}", ident(rng), nl(rng, style), fields(rng, style, true), nl(rng, style))),
+            3 => out.push_str(&format!("struct {}({})", ident(rng), fields(rng, style, false))),
+            4 => {
+                out.push_str(&format!("enum {} {{{}", ident(rng), nl(rng, style)));
+                let n = rng.below(5);
+                for _ in 0..n {
+                    out.push_str(pad(rng));
+                    out.push_str(&ident(rng));
+                    match rng.below(3) {
+                        0 => {}
+                        1 => out.push_str(&format!("({})", fields(rng, style, false))),
+                        _ => out.push_str(&format!(" {{{}{}{}}}", nl(rng, style), fields(rng, style, true), nl(rng, style))),
+                    }
+                    out.push(',');
+                    out.push_str(nl(rng, style));
+                }
+                out.push('}');
+            }
+            5 | 6 if depth < 3 => {
+                let head = match rng.below(4) {
+                    0 => format!("trait {} {{", ident(rng)),
+                    1 => format!("impl {} for {} {{", ident(rng), rng.pick_str(TYPES)),
+                    2 => format!("impl[T] {} {{", rng.pick_str(TYPES)),
+                    _ => format!("mod {} {{", ident(rng)),
+                };
+                out.push_str(&head);
+                out.push_str(nl(rng, style));
+                let n = rng.below(4);
+                for _ in 0..n {
+                    item(rng, style, depth + 1, out);
+                }
+                out.push('}');
+            }
+            7 => out.push_str(&format!("const {}: Int32 = 1;", ident(rng))),
+            8 => out.push_str(&format!("let mut {}: {} = \"ä😀\";", ident(rng), rng.pick_str(TYPES))),
+            9 => out.push_str(&format!("type {} = {};", ident(rng), rng.pick_str(TYPES))),
+            10 => out.push_str(&format!("mod {};", ident(rng))),
+            11 => out.push_str(&format!("use {}::{};", ident(rng), ident(rng))),
+            _ => out.push_str(&format!("fn {}();", ident(rng))),
+        }
+        out.push_str(nl(rng, style));
+    }
+    let style = rng.below(4);
+    let mut s = String::new();
+    if rng.chance(1, 10) {
+        s.push('\u{feff}');
+    }
+    let n = 1 + rng.below(8);
+    for _ in 0..n {
+        item(rng, style, 0, &mut s);
+    }
+    if rng.chance(1, 3) {
+        while s.ends_with('\n') || s.ends_with('\r') {
+            s.pop();
+        }
+    }
+    s
+}
+
+/// Families of the in-process part (round-robin by case index).
+const POS_FAMILIES: &[&str] = &[
+    "hostile", "poshostile", "line-endings", "multibyte", "utf8-random", "corpus-crlf", "corpus", "symgen", "poshostile",
+    "line-endings", "multibyte", "utf8-random", "corpus-crlf", "tok-replace", "truncate", "soup",
+];
+
+/// Families sent through the real server.
+const SRV_FAMILIES: &[&str] = &[
+    "corpus", "corpus-crlf", "symgen", "line-endings", "multibyte", "tok-delete", "corpus", "symgen", "tok-replace",
+    "tok-insert", "chunk-delete", "truncate", "splice", "hostile", "poshostile", "delim-flip",
+];
+
+fn make_case(c: &Corpus, seed: u64, idx: u64, fams: &[&str], stream: u64) -> Case {
+    let mut rng = Rng::new(seed, stream, idx);
+    let round = idx / fams.len() as u64;
+    let mut fam = fams[(idx as usize) % fams.len()];
+    if fam == "soup" && round % 4 == 0 {
+        fam = "longline";
+    }
+    let own = |family: &str, text: String| Case { family: family.to_string(), text, base: None };
+    match fam {
+        "hostile" => {
+            if (round as usize) < HOSTILE.len() {
+                own(fam, HOSTILE[round as usize].to_string())
+            } else {
+                own("poshostile", poshostile(&mut rng))
+            }
+        }
+        "poshostile" => own(fam, poshostile(&mut rng)),
+        "longline" => own(fam, longline(&mut rng)),
+        "symgen" => own(fam, symgen(&mut rng)),
+        // textgen walks the corpus by idx / 16
+        "corpus" => {
+            let slot = (idx as usize) % fams.len();
+            let per_round = fams.iter().filter(|f| **f == "corpus").count() as u64;
+            let ordinal = fams[..slot].iter().filter(|f| **f == "corpus").count() as u64;
+            gen_family(c, &mut rng, fam, (round * per_round + ordinal) * 16)
+        }
+        _ => gen_family(c, &mut rng, fam, idx),
+    }
+}
+
+// ------------------------------------------------------------------------------------------------
+// Reference model (independent of compute_line_starts / encode_utf16): one pass over the characters.
+// Line breaks are \n, \r\n and a lone \r (LSP 3.17 "Text Documents": EOL = '\n' | '\r\n' | '\r').
+
+#[derive(Clone, Copy, Debug)]
+struct RefLine {
+    start: usize,
+    content_end: usize, // before the terminator
+    next_start: usize,  // after the terminator (== len for the last line)
+}
+
+struct RefModel {
+    /// (line, utf16 column) for every byte offset on a char boundary, None elsewhere; len + 1 entries
+    pos: Vec<Option<(u32, u32)>>,
+    lines: Vec<RefLine>,
+}
+
+fn u16_units(c: char) -> u32 {
+    if (c as u32) >= 0x1_0000 { 2 } else { 1 }
+}
+
+fn ref_model(text: &str) -> RefModel {
+    let n = text.len();
+    let mut pos = vec![None; n + 1];
+    let mut lines = vec![];
+    let (mut line, mut col, mut start) = (0u32, 0u32, 0usize);
+    let cs: Vec<(usize, char)> = text.char_indices().collect();
+    let mut k = 0;
+    while k < cs.len() {
+        let (i, c) = cs[k];
+        pos[i] = Some((line, col));
+        if c == '\n' {
+            lines.push(RefLine { start, content_end: i, next_start: i + 1 });
+            line += 1;
+            col = 0;
+            start = i + 1;
+        } else if c == '\r' {
+            if k + 1 < cs.len() && cs[k + 1].1 == '\n' {
+                // the offset between \r and \n is still on the old line, one unit after the \r
+                pos[i + 1] = Some((line, col + 1));
+                lines.push(RefLine { start, content_end: i, next_start: i + 2 });
+                k += 1;
+                start = i + 2;
+            } else {
+                lines.push(RefLine { start, content_end: i, next_start: i + 1 });
+                start = i + 1;
+            }
+            line += 1;
+            col = 0;
+        } else {
+            col += u16_units(c);
+        }
+        k += 1;
+    }
+    pos[n] = Some((line, col));
+    lines.push(RefLine { start, content_end: n, next_start: n });
+    RefModel { pos, lines }
+}
+
+/// What a (line, column) position may map to according to the reference.
+enum Expect {
+    Exact(usize),
+    /// column inside a surrogate pair: either side of that character
+    Either(usize, usize),
+    /// column past the end of the line: anywhere from the end of the content to the start of the next line
+    Clamp(usize, usize),
+}
+
+fn ref_offset(text: &str, m: &RefModel, line: u32, col: u32) -> Expect {
+    if line as usize >= m.lines.len() {
+        return Expect::Exact(text.len());
+    }
+    let l = m.lines[line as usize];
+    let mut u = 0u64;
+    let mut off = l.start;
+    for c in text[l.start..l.content_end].chars() {
+        if u == col as u64 {
+            return Expect::Exact(off);
+        }
+        let w = u16_units(c) as u64;
+        if (col as u64) < u + w {
+            return Expect::Either(off, off + c.len_utf8());
+        }
+        u += w;
+        off += c.len_utf8();
+    }
+    if u == col as u64 { Expect::Exact(l.content_end) } else { Expect::Clamp(l.content_end, l.next_start) }
+}
+
+// ------------------------------------------------------------------------------------------------
+
+#[derive(Default)]
+struct Tally {
+    offsets: u64,
+    positions: u64,
+    between_crlf: u64,
+    astral_offsets: u64,
+    inside_pair: u64,
+    past_eol: u64,
+    past_eof: u64,
+    spans: u64,
+}
+
+fn check_text(text: &str, rng: &mut Rng, t: &mut Tally) -> Vec<(String, String)> {
+    let mut bad: Vec<(String, String)> = vec![];
+    let n = text.len();
+    let m = ref_model(text);
+    let ls = match catch(|| dora_parser::compute_line_starts(text)) {
+        Ok(v) => v,
+        Err(p) => {
+            bad.push((format!("panic@{}:{}", p.loc, msg_class(&p.msg)), format!("compute_line_starts panicked: {}", p.msg)));
+            return bad;
+        }
+    };
+    let ref_starts: Vec<u32> = m.lines.iter().map(|l| l.start as u32).collect();
+    if ls != ref_starts {
+        bad.push(("c20:line-starts-vs-reference".into(), format!("compute_line_starts {:?} != reference {:?}", &ls[..ls.len().min(12)], &ref_starts[..ref_starts.len().min(12)])));
+        return bad;
+    }
+
+    // ---- offsets
+    let all = n <= 6000;
+    let mut offs: Vec<usize> = vec![];
+    if all {
+        offs.extend((0..=n).filter(|&o| text.is_char_boundary(o)));
+    } else {
+        offs.push(0);
+        offs.push(n);
+        for _ in 0..700 {
+            let mut o = rng.below(n + 1);
+            while !text.is_char_boundary(o) {
+                o -= 1;
+            }
+            offs.push(o);
+        }
+        let mut special = 0;
+        for (i, c) in text.char_indices() {
+            if c == '\n' || c == '\r' || (c as u32) >= 0x1_0000 {
+                offs.push(i);
+                offs.push(i + c.len_utf8());
+                special += 1;
+                if special > 700 {
+                    break;
+                }
+            }
+        }
+        // the last line matters
+        let l = m.lines[m.lines.len() - 1];
+        offs.push(l.start);
+        let mut k = 0;
+        for (i, _) in text[l.start..].char_indices().rev() {
+            offs.push(l.start + i);
+            k += 1;
+            if k > 8 {
+                break;
+            }
+        }
+        offs.sort();
+        offs.dedup();
+    }
+    let cur = Cell::new(0usize);
+    let mut sub: Vec<(String, String)> = vec![];
+    let r = catch(|| {
+        for &o in &offs {
+            cur.set(o);
+            let p = utf8_offset_to_utf16_position(text, &ls, o as u32);
+            let want = m.pos[o].unwrap();
+            if (p.line, p.character) != want && sub.len() < 3 {
+                sub.push(("c20:position-vs-reference".into(), format!("offset {}: utf8_offset_to_utf16_position = ({}, {}), reference (line, utf16 column) = {:?}", o, p.line, p.character, want)));
+            }
+            let back = utf16_position_to_utf8_offset(text, &ls, p);
+            if back as usize != o && sub.len() < 3 {
+                let between = o > 0 && o < n && text.as_bytes()[o - 1] == b'\r' && text.as_bytes()[o] == b'\n';
+                sub.push((
+                    if between { "c20:roundtrip:between-cr-lf".into() } else { "c20:roundtrip".into() },
+                    format!("offset {} -> position ({}, {}) -> offset {}", o, p.line, p.character, back),
+                ));
+            }
+        }
+    });
+    for &o in &offs {
+        t.offsets += 1;
+        if o > 0 && o < n && text.as_bytes()[o - 1] == b'\r' && text.as_bytes()[o] == b'\n' {
+            t.between_crlf += 1;
+        }
+        if o >= 4 && text.is_char_boundary(o - 4) && text[o - 4..o].chars().count() == 1 {
+            t.astral_offsets += 1;
+        }
+    }
+    bad.append(&mut sub);
+    if let Err(p) = r {
+        bad.push((
+            format!("panic@{}:{}", p.loc, msg_class(&p.msg)),
+            format!("offset -> position -> offset panicked for char-boundary offset {} of a {}-byte text: {}", cur.get(), n, p.msg),
+        ));
+    }
+
+    // ---- (line, column) grid
+    let nl = m.lines.len();
+    let mut lines: Vec<u32> = vec![];
+    if nl <= 48 {
+        lines.extend(0..nl as u32);
+    } else {
+        lines.extend([0u32, 1, nl as u32 - 2, nl as u32 - 1]);
+        for _ in 0..40 {
+            lines.push(rng.below(nl) as u32);
+        }
+    }
+    lines.extend([nl as u32, nl as u32 + 1, nl as u32 + 1000, u32::MAX - 1, u32::MAX]);
+    lines.sort();
+    lines.dedup();
+    let mut grid: Vec<(u32, u32)> = vec![];
+    for &line in &lines {
+        let mut cols: Vec<u32> = vec![0, 1, 2, 3, 1000, 65_535, 65_536, i32::MAX as u32, u32::MAX - 1, u32::MAX];
+        if (line as usize) < nl {
+            let l = m.lines[line as usize];
+            let (_, endcol) = m.pos[l.content_end].unwrap();
+            for d in 0..4u32 {
+                cols.push(endcol.saturating_sub(d));
+                cols.push(endcol + d);
+            }
+            for _ in 0..6 {
+                cols.push(rng.below(endcol as usize + 4) as u32);
+            }
+            // columns inside surrogate pairs
+            let mut k = 0;
+            for (i, c) in text[l.start..l.content_end].char_indices() {
+                if (c as u32) >= 0x1_0000 {
+                    let (_, col) = m.pos[l.start + i].unwrap();
+                    cols.extend([col, col + 1, col + 2]);
+                    k += 1;
+                    if k >= 6 {
+                        break;
+                    }
+                }
+            }
+        }
+        cols.sort();
+        cols.dedup();
+        for c in cols {
+            grid.push((line, c));
+        }
+    }
+    let curp = Cell::new((0u32, 0u32));
+    let mut sub: Vec<(String, String)> = vec![];
+    let mut tally = (0u64, 0u64, 0u64, 0u64);
+    let r = catch(|| {
+        let mut prev: Option<((u32, u32), u32)> = None;
+        for &(line, col) in &grid {
+            curp.set((line, col));
+            let got = utf16_position_to_utf8_offset(text, &ls, Position::new(line, col)) as usize;
+            tally.0 += 1;
+            let mut push = |key: &str, what: String| {
+                if sub.len() < 4 {
+                    sub.push((key.to_string(), format!("position ({}, {}) -> offset {} of a {}-byte, {}-line text: {}", line, col, got, n, nl, what)));
+                }
+            };
+            if got > n {
+                push("c20:clamp:beyond-document", "result lies beyond the end of the document".into());
+            } else if !text.is_char_boundary(got) {
+                push("c20:clamp:not-char-boundary", "result is not on a character boundary".into());
+            } else {
+                match ref_offset(text, &m, line, col) {
+                    Expect::Exact(e) => {
+                        if line as usize >= nl {
+                            tally.3 += 1;
+                            if got != e {
+                                push("c20:clamp:line-past-end", format!("a line past the last line must map to the document end {}", e));
+                            }
+                        } else if got != e {
+                            push("c20:offset-vs-reference", format!("reference says {}", e));
+                        }
+                    }
+                    Expect::Either(a, b) => {
+                        tally.1 += 1;
+                        if got != a && got != b {
+                            push("c20:offset-vs-reference:inside-surrogate-pair", format!("column is inside a surrogate pair; reference allows {} or {}", a, b));
+                        }
+                    }
+                    Expect::Clamp(a, b) => {
+                        tally.2 += 1;
+                        if got < a || got > b {
+                            push("c20:clamp:outside-line", format!("column past the end of the line must be clamped into {}..={} (end of line content .. start of next line)", a, b));
+                        }
+                    }
+                }
+            }
+            if let Some((pp, po)) = prev {
+                if (got as u32) < po {
+                    push("c20:not-monotone", format!("previous position ({}, {}) mapped to the larger offset {}", pp.0, pp.1, po));
+                }
+            }
+            prev = Some(((line, col), got as u32));
+        }
+    });
+    t.positions += tally.0;
+    t.inside_pair += tally.1;
+    t.past_eol += tally.2;
+    t.past_eof += tally.3;
+    bad.append(&mut sub);
+    if let Err(p) = r {
+        let (l, c) = curp.get();
+        bad.push((
+            format!("panic@{}:{}", p.loc, msg_class(&p.msg)),
+            format!("utf16_position_to_utf8_offset panicked for position ({}, {}) of a {}-byte, {}-line text: {}", l, c, n, nl, p.msg),
+        ));
+    }
+
+    // ---- spans <-> ranges (pairs of char-boundary offsets)
+    let mut sub: Vec<(String, String)> = vec![];
+    let cspan = Cell::new((0usize, 0usize));
+    let r = catch(|| {
+        for _ in 0..24 {
+            let a = offs[rng.below(offs.len())];
+            let b = offs[rng.below(offs.len())];
+            let (a, b) = (a.min(b), a.max(b));
+            cspan.set((a, b));
+            let span = dora_parser::Span::new(a as u32, (b - a) as u32);
+            let range: Range = span_to_range(text, &ls, span);
+            let (ra, rb) = (m.pos[a].unwrap(), m.pos[b].unwrap());
+            if ((range.start.line, range.start.character), (range.end.line, range.end.character)) != (ra, rb) && sub.len() < 2 {
+                sub.push(("c20:span-to-range-vs-reference".into(), format!("span {}..{} -> range {:?}, reference {:?}..{:?}", a, b, range, ra, rb)));
+            }
+            let back = range_to_span(text, &ls, range);
+            if (back.start() as usize, back.end() as usize) != (a, b) && sub.len() < 2 {
+                sub.push(("c20:roundtrip:span-range".into(), format!("span {}..{} -> range {:?} -> span {}..{}", a, b, range, back.start(), back.end())));
+            }
+            t.spans += 1;
+        }
+    });
+    bad.append(&mut sub);
+    if let Err(p) = r {
+        let (a, b) = cspan.get();
+        bad.push((format!("panic@{}:{}", p.loc, msg_class(&p.msg)), format!("span_to_range/range_to_span panicked for span {}..{}: {}", a, b, p.msg)));
+    }
+    bad
+}
+
+fn run_pos(args: &Args) {
+    let corpus = Corpus::load(args.extra.as_deref());
+    let mut rep = Reporter::new(args);
+    for idx in args.indices() {
+        let case = make_case(&corpus, args.seed, idx, POS_FAMILIES, 0x20a);
+        rep.begin_case(idx, case.text.as_bytes());
+        rep.count("texts", 1);
+        rep.count(&format!("family:{}", case.family), 1);
+        let mut rng = Rng::new(args.seed, 0x20b, idx);
+        let mut t = Tally::default();
+        let text = case.text.as_str();
+        let bad = match catch(|| check_text(text, &mut rng, &mut t)) {
+            Ok(b) => b,
+            Err(p) => vec![(format!("panic@{}:{}", p.loc, msg_class(&p.msg)), format!("panicked: {}", p.msg))],
+        };
+        rep.count("offsets_checked", t.offsets);
+        rep.count("offsets_between_cr_and_lf", t.between_crlf);
+        rep.count("offsets_after_astral_char", t.astral_offsets);
+        rep.count("positions_checked", t.positions);
+        rep.count("positions_inside_surrogate_pair", t.inside_pair);
+        rep.count("positions_past_end_of_line", t.past_eol);
+        rep.count("positions_past_last_line", t.past_eof);
+        rep.count("span_range_roundtrips", t.spans);
+        let snip: String = if idx < 64 { case.text.chars().take(120).collect() } else { String::new() };
+        rep.line(vhc::json!({"t": "ok", "idx": idx, "h": vhc::fnv(case.text.as_bytes()), "fam": case.family, "snip": snip,
+            "len": case.text.len()}));
+        for (key, what) in bad {
+            rep.bad(idx, &key, &what, &case.text, &case.family);
+        }
+    }
+    rep.finish();
+}
+
+/// dump: write this shard's generated server texts to <out>/<idx>.dora and one index line each.
+fn run_dump(args: &Args) {
+    let corpus = Corpus::load(args.extra.as_deref());
+    let mut rep = Reporter::new(args);
+    let maxlen: usize = args.get("maxlen").map(|s| s.parse().unwrap()).unwrap_or(48 * 1024);
+    for idx in args.indices() {
+        let case = make_case(&corpus, args.seed, idx, SRV_FAMILIES, 0x20c);
+        if case.text.len() > maxlen {
+            rep.count("skipped_too_long", 1);
+            continue;
+        }
+        let name = format!("{}.dora", idx);
+        std::fs::write(args.out.join(&name), case.text.as_bytes()).unwrap();
+        let base = case.base.map(|b| corpus.files[b].display().to_string());
+        rep.line(vhc::json!({"t": "ok", "idx": idx, "h": vhc::fnv(case.text.as_bytes()), "fam": case.family, "file": name, "base": base}));
+    }
+    rep.finish();
+}
